@@ -412,6 +412,12 @@ func c02Run(c *Ctx, p *c02Stacks, head map[string]string, ops []merkOp, gen *ran
 	}
 	var obs []string
 	var prev []c02Item
+	var fixed []c02Item
+	if head["_fixed"] != "" {
+		if fixed, err = c02ParseItems(head["_fixed"]); err != nil {
+			return err
+		}
+	}
 	nq, reorgs := 0, 0
 	query := func(items []c02Item) {
 		fmt.Fprintf(&sb, ";q=%s", c02ItemsString(items))
@@ -471,7 +477,13 @@ func c02Run(c *Ctx, p *c02Stacks, head map[string]string, ops []merkOp, gen *ran
 			if reorg {
 				reorgs++
 			}
-			if (reorg && gen.Intn(4) != 0) || gen.Intn(12) == 0 {
+			if fixed != nil {
+				// long-reorganisation stores: the same targeted list after every reorganisation
+				if reorg {
+					query(fixed)
+					c.Count("query:long-reorg-targeted")
+				}
+			} else if (reorg && gen.Intn(4) != 0) || gen.Intn(12) == 0 {
 				if err := genQuery(false); err != nil {
 					return err
 				}
@@ -479,7 +491,10 @@ func c02Run(c *Ctx, p *c02Stacks, head map[string]string, ops []merkOp, gen *ran
 		}
 		si++
 	}
-	if gen != nil {
+	if gen != nil && fixed != nil {
+		query(fixed)
+		c.Count("query:long-reorg-targeted")
+	} else if gen != nil {
 		if err := genQuery(gen.Intn(3) == 0); err != nil {
 			return err
 		}
@@ -510,6 +525,57 @@ func c02Run(c *Ctx, p *c02Stacks, head map[string]string, ops []merkOp, gen *ran
 		c.Count("class:" + cl)
 	}
 	return nil
+}
+
+// merkHeights: height of every header of a history whose parents all arrive (genesis = 0).
+func merkHeights(h *History) (map[int]int, int) {
+	ht := map[int]int{genesisID: 0}
+	maxH := 0
+	for pass := 0; pass < 2; pass++ {
+		for _, sb := range h.Subs {
+			if d, ok := ht[sb.Prev]; ok {
+				ht[sb.ID] = d + 1
+				if d+1 > maxH {
+					maxH = d + 1
+				}
+			}
+		}
+	}
+	return ht, maxH
+}
+
+// merkBoundaryHeights: low heights and everything from just below the first 500-boundary up to above every tip.
+func merkBoundaryHeights(maxH int) map[int]bool {
+	set := map[int]bool{}
+	for x := 0; x <= 9; x++ {
+		set[x] = true
+	}
+	for x := 495; x <= maxH+9; x++ {
+		set[x] = true
+	}
+	return set
+}
+
+// c02LongItems: for every boundary height the roots of ALL headers stored at that height (displaced and newly
+// longest ones) and an unknown root (UNABLE_TO_VERIFY vs INVALID above the new tip).
+func c02LongItems(h *History) []c02Item {
+	ht, maxH := merkHeights(h)
+	set := merkBoundaryHeights(maxH)
+	var items []c02Item
+	seen := map[int]bool{}
+	for _, sb := range h.Subs {
+		if x, ok := ht[sb.ID]; ok && set[x] && !seen[sb.ID] {
+			seen[sb.ID] = true
+			items = append(items, c02Item{fmt.Sprintf("r%d", sb.Merkle), int64(x)})
+		}
+	}
+	for x := 0; x <= maxH+9; x++ {
+		if set[x] {
+			items = append(items, c02Item{"r9000", int64(x)})
+		}
+	}
+	items = append(items, c02Item{"r1", 0})
+	return items
 }
 
 func subOps02(subs []Sub) []merkOp {
@@ -673,6 +739,7 @@ func runC02(c *Ctx) error {
 	}
 	k := 0
 	zeroWork := false
+	longFixed := ""
 	var fromOps func(h *History, ops []merkOp, tag string) error
 	fromHistory := func(h *History, tag string) error { return fromOps(h, subOps02(h.Subs), tag) }
 	fromOps = func(h *History, ops []merkOp, tag string) error {
@@ -685,6 +752,10 @@ func runC02(c *Ctx) error {
 		head["f"] = strings.Join(fs, ",")
 		if zeroWork {
 			head["zw"] = "1"
+		}
+		if longFixed != "" {
+			head["_fixed"] = longFixed
+			head["e"] = "6"
 		}
 		return c02Run(c, p, head, ops, c.Rng, tag)
 	}
@@ -713,6 +784,15 @@ func runC02(c *Ctx) error {
 	for i := 0; i < c.Pick(120, 900); i++ {
 		h, ops := c02Planted(c.Rng, i%4)
 		if err := fromOps(h, ops, fmt.Sprintf("shared-roots-planted-%c", "abcd"[i%4])); err != nil {
+			return err
+		}
+	}
+	// reorganisations switching more than 500 headers in one submission (batching thresholds of the storage layer)
+	for _, h := range LongReorgHistories(c.Thorough()) {
+		longFixed = c02ItemsString(c02LongItems(h))
+		err := fromHistory(h, "long-reorganisation")
+		longFixed = ""
+		if err != nil {
 			return err
 		}
 	}
